@@ -153,6 +153,9 @@ def jobs(tier):
                 stubs=["code untraced; corpus indices and labels symbolic (solver covers every combination)"], site="train_naive_bayes"),
             Job("C17.DATASET", HN, "ob_dataset", timeout=1800, path_timeout=60,
                 bounds="stream of 0..2 candidates (4 resolution values of all three kinds, production length 1..3, candidate spans always different from the gold's; indices symbolic, builder untraced), optional leading None; one or two entries with the same text and different reference times (scripted parser depends on ts); gold by index",
+                functions=[fn_id(CO.make_partial_rule_dataset)], stubs=["ctparse_gen replaced by a scripted stream"], site="make_partial_rule_dataset"),
+            Job("C17.DATASET-PARTIAL", HN, "ob_dataset_partial", timeout=1800, path_timeout=60,
+                bounds="as DATASET, with the 4 resolution values 8:30, 2020-02-29 8:30, 8:00-9:00, open-9:00: candidate and gold differ only in fields that one of them leaves out, in both directions (a candidate that is the gold with fields missing, or with fields added, is a negative sample)",
                 functions=[fn_id(CO.make_partial_rule_dataset)], stubs=["ctparse_gen replaced by a scripted stream"], site="make_partial_rule_dataset")]
 
 
